@@ -37,6 +37,8 @@ class World:
         self.stash_depth = 0
         self.pending_ai = set()   # files with uncommitted AI checkpoints
         self.stale = set()        # files whose content was discarded while the working log kept an AI entry
+        self.carried = set()      # files whose uncommitted AI claims were carried over a partial commit (INITIAL)
+        self.k2 = set()           # ... and which a person then edited by hand: positional claims went stale (C03-K2)
 
     # ------------------------------------------------------------ primitives (recorded)
     def _rec(self, step):
@@ -73,6 +75,8 @@ class World:
         t = self.sim.read(path)
         if t is None:
             return None
+        if t == "":
+            return []          # an empty file has no lines (not one empty line)
         return t.split("\n")[:-1] if t.endswith("\n") else t.split("\n")
 
     def tracked(self):
@@ -129,7 +133,13 @@ class World:
         if actor != "H":
             self.cp_ai(actor, [path])
             self.pending_ai.add(path)
-            self.stale.discard(path)
+            if path not in self.k2:
+                self.stale.discard(path)
+                self.carried.discard(path)      # the agent's pre-edit checkpoint anchored the carried claims to real content
+        elif path in self.carried:
+            # a person edits a file whose carried-over claims are bare line numbers (known class C03-K2)
+            self.k2.add(path)
+            self.stale.add(path)
         self.trace.append(("edit", actor, path, kind))
         return path
 
@@ -139,6 +149,7 @@ class World:
         self.trace.append(("commit", rc))
         if rc == 0:
             self.pending_ai.clear()
+            self.carried.clear()
         return rc
 
     def op_commit_partial(self):
@@ -151,6 +162,7 @@ class World:
         rc, _, _ = self.git("commit", "-q", "-m", f"partial{len(self.trace)}")
         if rc == 0:
             self.pending_ai -= set(pick)
+            self.carried |= self.pending_ai
         self.trace.append(("commit_partial", rc, pick))
         return rc
 
